@@ -441,6 +441,23 @@ Theorem private_add_equiv :
 Proof. exact private_add_sound. Qed.
 Print Assumptions private_add_equiv.
 
+(* t.#x as an assignment target ([t.#x = d] = ..., for (t.#x of ...))
+   =>  __privateWrapper(t, _x [, x_set])._ : t is evaluated when the reference is,
+   whatever runs in between (default value, other elements, the iterator: mid),
+   the later store is PrivateSet (the shape the fix 9d95b30 of F15/F16 emits) *)
+Theorem private_target_equiv :
+  forall (U : Type) (w : world (U * pst)) (th terr : val)
+         (names : Z -> pname) (fobj : Z -> Z) (isset : Z -> bool),
+    call_intact (U * pst) w ->
+    (forall x, isset (pn_store (names x)) = match pn_kind (names x) with KField => false | _ => true end) ->
+    forall (F : feat) (t : expr) (x n : Z) (mid : M (U * pst) unit) (v : val) (m : tstore) (s : U * pst),
+      bind (ptarget w th terr fobj isset (fst (plower names F (PTarget t x) n)))
+           (fun k => bind mid (fun _ => lift (k v))) m s
+      = bind (ntarget w th terr names fobj (PTarget t x))
+             (fun k => bind mid (fun _ => lift (k v))) m s.
+Proof. exact private_target_sound. Qed.
+Print Assumptions private_target_equiv.
+
 (* every private-name form at once *)
 Theorem private_lowering_sound :
   forall (U : Type) (w : world (U * pst)) (th terr : val)
@@ -471,8 +488,8 @@ Print Assumptions private_logical_assign_getter_reassigns_refuted.
    with the visitor theorem (all per-step ingredients above are proved; the
    induction needs the lowered callee's own temporaries to be tracked across
    the arguments); the minify-only dead-chain branch of lowerOptionalChain;
-   private names inside optional chains (o?.#x), t.#x++ / destructuring
-   through __privateWrapper, and the class-level set-up that creates the
+   private names inside optional chains (o?.#x), t.#x++ and the read side of
+   __privateWrapper, and the class-level set-up that creates the
    WeakMaps (F14: one "var _x" shared by every evaluation of the class). *)
 
 (* The full statement of the property - for every world, feature set and
